@@ -10,8 +10,7 @@ Python anchors (src/peptacular):
 * `sequence_funcs.count_residues`                → `countResidues` (condenses first)
 
 Strings are `List Char`. Python dicts are insertion-ordered association lists.
-Outside the model (replied `unmodelled`/excluded by the harness): rule targets that are not literal
-text (regex metacharacters in `re.finditer(aa, sequence)`), empty targets, float literals that Python
+Outside the model (excluded by the harness): empty rule targets, float literals that Python
 prints in exponent form or with more than 15 significant digits, `int()`/`float()` extras
 (underscores, surrounding blanks, `inf`, `nan`, exponents).
 -/
@@ -201,8 +200,9 @@ def countAux (t : List Char) : List Char → (skip : Nat) → Nat
 
 def countOcc (t seq : List Char) : Nat := if t = [] then 0 else countAux t seq 0
 
-/-- targets the model treats literally (everything the property quantifies over: residue letters and the two termini) -/
-def literalTarget (t : List Char) : Bool := t ≠ [] && t.all fun c => c.isAlphanum || c == '-'
+/-- targets the model covers: since repo commit 72c1d65 `condense_static_mods` matches the target text literally
+(`re.escape`), so every non-empty target; the empty target (`finditer('')` matches at every position, end included) is not modelled -/
+def literalTarget (t : List Char) : Bool := t ≠ []
 
 /-! ### `condense_static_mods` -/
 
@@ -330,7 +330,7 @@ def serMiddleAux (a : Annotation) (plus : Bool) : List Char → Nat → List Cha
 
 def serEnd (a : Annotation) (plus : Bool) : List Char :=
   (match a.cterm with | some (m :: l) => ['-'] ++ serMods '[' ']' plus (m :: l) | _ => []) ++
-  (match a.charge with | some c => if c ≠ 0 then ['/'] ++ showInt c else [] | none => []) ++
+  (match a.charge with | some c => ['/'] ++ showInt c | none => []) ++   -- `is not None` since repo commit 0046c62
   (match a.adducts with | some l => serMods '[' ']' plus l | none => [])
 
 /-- `annotation.serialize(include_plus)` -/
